@@ -15,11 +15,10 @@ class FileModel:
         self.F = z3.Const(name + '.bytes', AII)
         self.N = z3.Int(name + '.len')
         ctx.facts.append(self.N >= 0)
-        i = z3.Int(name + '!i')
-        ctx.facts.append(z3.ForAll([i], z3.And(z3.Select(self.F, i) >= 0, z3.Select(self.F, i) < 256)))
 
     def byte(self, i):
-        return z3.Select(self.F, i)
+        # the i-th byte; `% 256` keeps every byte in 0..255 without a quantified range axiom
+        return z3.Select(self.F, i) % 256
 
     def le(self, off, n):
         return z3.Sum([self.byte(off + k) * (1 << (8 * k)) for k in range(n)])
